@@ -15,7 +15,7 @@ from mbv.tlc import MachineryError
 
 PARAMS = json.loads((tlc.SPECS / "matrix_params.json").read_text())["leaves"]
 BY_NAME = {l["name"]: l for l in PARAMS}
-PARTNERS = ["D3", "TL3", "DSQ3", "DSY3", "ORT3", "TF3p", "R32", "R23", "BD3", "PLR3n", "DSQ1", "sI1n"]
+PARTNERS = ["I3", "D3", "TL3", "DSQ3", "DSY3", "ORT3", "TF3p", "R32", "R23", "BD3", "PLR3n", "DSQ1", "sI1n"]
 UNARY = {"T", "inv", "neg", "scale2", "scalemh", "div4"}
 SCALARS = {"neg": -1.0, "scale2": 2.0, "scalemh": -0.5, "div4": 0.25}
 
@@ -47,6 +47,8 @@ def leaves_module():
             f.append(f"p2 |-> {mat_tla(l['p2'])}")
         if "sign" in l:
             f.append(f"sign |-> {tlc.to_tla(l['sign'])}")
+        if "lower" in l:
+            f.append(f"lower |-> {tlc.to_tla(l['lower'])}")
         if "subs" in l:
             f.append("subs |-> <<" + ", ".join(tlc.tla_str(s) for s in l["subs"]) + ">>")
         recs.append(f'{l["name"]} |-> [' + ", ".join(f) + "]")
